@@ -586,6 +586,9 @@ func parse3dExtension(r *bits.EBSPReader) (*D3Extension, error) {
 					// variable depthMaxValue is set equal to ( 1 << ( pps_bit_depth_for_depth_layers_minus8 + 8 ) ) − 1
 					depthMaxValue := (1 << (ext.BitDepthForDepthLayersMinus8 + 8)) - 1
 					for j := 0; j <= depthMaxValue; j++ {
+						if r.AccError() != nil {
+							break // no more data: stop instead of filling up to the coded count
+						}
 						layer.DltValueFlag = append(layer.DltValueFlag, r.ReadFlag())
 					}
 				} else {
@@ -622,6 +625,9 @@ func parseDeltaDlt(r *bits.EBSPReader, BitDepthForDepthLayers int) (*DeltaDlt, e
 		dd.DeltaDltVal0 = r.Read(BitDepthForDepthLayers)
 		if dd.MaxDiff > (dd.MinDiffMinus1 + 1) {
 			for k := uint(1); k < dd.NumValDeltaDlt; k++ {
+				if r.AccError() != nil {
+					break // no more data: stop instead of filling up to the coded count
+				}
 				// variable minDiff is set equal to ( min_diff_minus1 + 1 )
 				// length of delta_val_diff_minus_min[ k ] syntax element is Ceil( Log2( max_diff − minDiff + 1 ) ) bits
 				dd.DeltaValDiffMinusMin =
